@@ -3,8 +3,10 @@ package main
 // C37 facts: bfe_http2/server.go
 //   const maxQueuedControlFrames = N
 //   func (s *Server) maxQueuedControlFrames() int { return maxQueuedControlFrames }
-//   serve(): if sc.queuedControlFrames > sc.srv.maxQueuedControlFrames() { ...; return }
-// The extractor fails if any of the three no longer has this shape.
+//   serve(): for { select {...}; if sc.queuedControlFrames > sc.srv.maxQueuedControlFrames() { ...; return } }
+// The extractor fails if the constant or the accessor no longer has this shape; WHERE the check sits is
+// reported as the fact `checkAtLoopTail` (a theorem of Props requires it to be true), so that a moved
+// check still lets the correspondence run look for a failing input.
 
 import (
 	"fmt"
@@ -39,39 +41,63 @@ func init() {
 			return "", fmt.Errorf("(*Server).maxQueuedControlFrames is no longer `return maxQueuedControlFrames`")
 		}
 		sv := findFunc(f, "serverConn", "serve")
-		if sv == nil {
+		if sv == nil || sv.Body == nil {
 			return "", fmt.Errorf("serverConn.serve not found")
 		}
-		found := 0
-		ast.Inspect(sv, func(nd ast.Node) bool {
-			is, ok := nd.(*ast.IfStmt)
-			if !ok {
-				return true
+		isCheck := func(st ast.Stmt) bool {
+			is, ok := st.(*ast.IfStmt)
+			if !ok || is.Init != nil || is.Else != nil {
+				return false
 			}
 			be, ok := is.Cond.(*ast.BinaryExpr)
 			if !ok || be.Op != token.GTR {
-				return true
+				return false
 			}
 			l, ok1 := be.X.(*ast.SelectorExpr)
 			c, ok2 := be.Y.(*ast.CallExpr)
 			if !ok1 || !ok2 || l.Sel.Name != "queuedControlFrames" {
-				return true
+				return false
 			}
-			if s, ok := c.Fun.(*ast.SelectorExpr); ok && s.Sel.Name == "maxQueuedControlFrames" {
-				// the body must end the serve loop
-				if len(is.Body.List) > 0 {
-					if _, ok := is.Body.List[len(is.Body.List)-1].(*ast.ReturnStmt); ok {
-						found++
-					}
+			fs, ok := c.Fun.(*ast.SelectorExpr)
+			if !ok || fs.Sel.Name != "maxQueuedControlFrames" || len(is.Body.List) == 0 {
+				return false
+			}
+			_, ret := is.Body.List[len(is.Body.List)-1].(*ast.ReturnStmt)
+			return ret
+		}
+		// the serve loop: the (only) top-level `for { ... select {...} ...; <check> }` of serve().
+		// checkAtLoopTail = the check is the LAST statement of the loop body and directly follows the
+		// select that dispatches the events, i.e. it runs at the end of every iteration whatever the
+		// event and its outcome were.
+		atTail := false
+		loops := 0
+		for _, st := range sv.Body.List {
+			fl, ok := st.(*ast.ForStmt)
+			if !ok || fl.Cond != nil {
+				continue
+			}
+			loops++
+			n := len(fl.Body.List)
+			if n >= 2 && isCheck(fl.Body.List[n-1]) {
+				if _, ok := fl.Body.List[n-2].(*ast.SelectStmt); ok {
+					atTail = true
 				}
+			}
+		}
+		if loops != 1 {
+			return "", fmt.Errorf("serve(): expected exactly one top-level `for {}` loop, found %d", loops)
+		}
+		// how many such checks exist anywhere in the file (informational)
+		total := 0
+		ast.Inspect(f, func(nd ast.Node) bool {
+			if st, ok := nd.(ast.Stmt); ok && isCheck(st) {
+				total++
 			}
 			return true
 		})
-		if found != 1 {
-			return "", fmt.Errorf("serve(): expected exactly one `if sc.queuedControlFrames > ...maxQueuedControlFrames() { ...; return }`, found %d", found)
-		}
 		out := header("C37", "bfe_http2/server.go")
 		out += fmt.Sprintf("/-- `const maxQueuedControlFrames` (server.go); serve() closes when `queuedControlFrames > limit` -/\ndef maxQueuedControlFrames : Nat := %d\n", n)
+		out += fmt.Sprintf("\n/-- the `if sc.queuedControlFrames > sc.srv.maxQueuedControlFrames() { ...; return }` is the last statement of\n    serve()'s `for` body, right after the `select`: it runs at the end of EVERY loop iteration -/\ndef checkAtLoopTail : Bool := %v\n\n/-- number of such checks found anywhere in server.go -/\ndef checksFound : Nat := %d\n", atTail, total)
 		out += footer("C37")
 		return out, nil
 	})
